@@ -99,7 +99,7 @@ class Gen:
         if ty == BOOL:
             return r.choice(["True", "False"])
         if ty == STR:
-            return repr(r.choice(["", "a", "bc", "Hello", "x y", "q,r,s", "zz9", "É", "ab" * 3]))
+            return repr(r.choice(["", "a", "bc", "Hello", "x y", "q,r,s", "zz9", "É", "ab" * 3, "\x1fq\x1c", "\u2003z ", "\x85t\x0b"]))
         if ty == FLT:
             return r.choice(["0.5", "2.0", "-1.25", "1e3"])
         if ty == LI:
